@@ -73,13 +73,58 @@ func verifC14Catch(n, L int, parallel bool) {
 	verifReach("end")
 }
 
-func VerifC14_Par2_L4() { verifC14Catch(2, 4, true) }
-func VerifC14_Par3_L5() { verifC14Catch(3, 5, true) }
-func VerifC14_Par2_L6() { verifC14Catch(2, 6, true) }
-func VerifC14_Par3_L6() { verifC14Catch(3, 6, true) }
-func VerifC14_Par4_L6() { verifC14Catch(4, 6, true) }
-func VerifC14_Par4_L9() { verifC14Catch(4, 9, true) }
-func VerifC14_Par3_L9() { verifC14Catch(3, 9, true) }
-func VerifC14_Par1_L4() { verifC14Catch(1, 4, true) }
+func VerifC14_Par2_L4()   { verifC14Catch(2, 4, true) }
+func VerifC14_Par3_L5()   { verifC14Catch(3, 5, true) }
+func VerifC14_Par2_L6()   { verifC14Catch(2, 6, true) }
+func VerifC14_Par3_L6()   { verifC14Catch(3, 6, true) }
+func VerifC14_Par4_L6()   { verifC14Catch(4, 6, true) }
+func VerifC14_Par4_L9()   { verifC14Catch(4, 9, true) }
+func VerifC14_Par3_L9()   { verifC14Catch(3, 9, true) }
+func VerifC14_Par1_L4()   { verifC14Catch(1, 4, true) }
 func VerifC14_Multi3_L5() { verifC14Catch(3, 5, false) }
-func VerifC14_Par2_L5() { verifC14Catch(2, 5, true) }
+func VerifC14_Par2_L5()   { verifC14Catch(2, 5, true) }
+
+// the throw-event counterpart (always "all definitions required" when there are several)
+func verifC14Throw(n, L int) {
+	te := schema.DefaultThrowEvent()
+	defs := make([]schema.SignalEventDefinition, 0, n)
+	for i := 0; i < n; i++ {
+		d := schema.DefaultSignalEventDefinition()
+		q := schema.QName(verifSigNames[i])
+		d.SetSignalRef(&q)
+		defs = append(defs, d)
+	}
+	te.SetSignalEventDefinitions(defs)
+	s := NewThrowEventSatisfier(&te, event.WrappingDefinitionInstanceBuilder)
+	var matched [4]int64
+	var fires int64
+	for j := 0; j < L; j++ {
+		verifMerge()
+		h := verifNondetInt("h", 0, n)
+		name := "none"
+		if h < n {
+			name = verifSigNames[h]
+		}
+		chainsBefore := len(s.chains)
+		ok, chain := s.Satisfy(event.NewSignalEvent(name))
+		if h == n {
+			verifAssert(!ok && chain == EventDidNotMatch, "non-matching event reports no match")
+			verifAssert(len(s.chains) == chainsBefore, "non-matching event changes nothing")
+		} else {
+			matched[h]++
+			if ok {
+				fires++
+			}
+		}
+		allEq := true
+		for i := 0; i < n; i++ {
+			verifAssert(fires <= matched[i], "never fires more often than the least-matched definition")
+			allEq = verifAnd(allEq, matched[i] == matched[0])
+		}
+		verifAssert(verifImplies(allEq, fires == matched[0]), "fired exactly k times when every definition matched k times")
+	}
+	verifReach("end")
+}
+
+func VerifC14_Throw2_L4() { verifC14Throw(2, 4) }
+func VerifC14_Throw3_L5() { verifC14Throw(3, 5) }
